@@ -41,7 +41,7 @@ def gen_parameters(rng, tenv, findings=False):
         elif n == "SsmP" or k < 0.4:
             d["Type"] = "AWS::SSM::Parameter::Value<String>"
             if rng.random() < 0.7:
-                d["Default"] = rng.choice(["/p/a", "name"])
+                d["Default"] = rng.choice(["/p/a", "name", "/p/a"])
             tenv.params[n] = "x"
         else:
             d["Type"] = "String"
@@ -86,6 +86,12 @@ def gen_extra(rng, decls):
         extra[rng.choice(PSEUDO_NAMES)] = rng.choice(["us-east-1", "999", "aws-cn"])
     if rng.random() < 0.3:
         extra["/p/a:1"] = rng.choice(["ssm-val", "TRUE", ""])
+    named = [d["Default"] for d in decls.values() if isinstance(d.get("Default"), str) and d["Default"] and d["Default"] not in decls]
+    if named and rng.random() < 0.2:
+        # a supplied key that is the TEXT of some parameter's Default (for an AWS::SSM::Parameter::Value<..> parameter: the SSM name
+        # it points to).  It is one more undeclared name, nothing else: values are supplied under the parameter's own name
+        # (seeded change C07-r5m2 let the first SSM-typed parameter with that Default consume it)
+        extra[rng.choice(named)] = rng.choice(["ami-0123456789abcdef0", "by-default-name", "TRUE"])
     return extra
 
 
